@@ -4,6 +4,7 @@ import (
 	"bytes"
 	"errors"
 	"fmt"
+	"math/big"
 	"math/rand"
 	"os"
 	"path/filepath"
@@ -149,7 +150,7 @@ func around(s string, i int) string {
 }
 
 func runC13(r *ev.Run) {
-	r.SetRule("generated MIME messages whose section bytes are known by construction (nesting <= 4, multipart/message-rfc822/leaf parts, folded headers, header fields without a value, a top-level content type message/rfc822 now and then, CRLF and LF line endings, 8-bit data, an occasional leaf across the store's 256 KiB block edge) are APPENDed (5 in 10 plainly; 1 in 10 delivered by the connector instead (MessagesCreated); 1 in 10 appended and then replaced through MessageUpdated with other bytes; messages without any header field now and then, into \\Drafts mailboxes and through the connector; 1 in 10 rejected by the remote, kept in the recovery mailbox and moved or copied out of it; 2 in 10 appended, then their store file removed so that the next fetch downloads them from the remote again and later ones read what was written back); every relation of the property is then checked on the wire: BODY[] vs the appended bytes (+ one server ID line), RFC822/RFC822.SIZE/HEADER/TEXT, every BODY[p], BODY[p.MIME], BODY[p.HEADER], BODY[p.TEXT], partials <o.n> with o,n in {0,1,len-1,len,len+1,2^31,2^63-1}, HEADER.FIELDS vs HEADER.FIELDS.NOT partition. distinct = distinct (relation, part kind, depth, line ending) tuples")
+	r.SetRule("generated MIME messages whose section bytes are known by construction (nesting <= 4, multipart/message-rfc822/leaf parts, folded headers, header fields without a value, a top-level content type message/rfc822 now and then, CRLF and LF line endings, 8-bit data, an occasional leaf across the store's 256 KiB block edge) are APPENDed (5 in 10 plainly; 1 in 10 delivered by the connector instead (MessagesCreated); 1 in 10 appended and then replaced through MessageUpdated with other bytes; messages without any header field now and then, into \\Drafts mailboxes and through the connector; 1 in 10 rejected by the remote, kept in the recovery mailbox and moved or copied out of it; 2 in 10 appended, then their store file removed so that the next fetch downloads them from the remote again and later ones read what was written back); every relation of the property is then checked on the wire: BODY[] vs the appended bytes (+ one server ID line), RFC822/RFC822.SIZE/HEADER/TEXT, every BODY[p], BODY[p.MIME], BODY[p.HEADER], BODY[p.TEXT], partials <o.n> with o,n in {0,1,len-1,len,len+1,2^31,2^63-1}, partials whose origin or count is t+k*2^32, t+k*2^64 or a 64-bit boundary text with a digit appended (only a refusal, the empty string resp. the unshortened slice are accepted), HEADER.FIELDS vs HEADER.FIELDS.NOT partition. distinct = distinct (relation, part kind, depth, line ending) tuples")
 	r.Assume("literal framing is checked by the wire parser: a {n} that is not followed by exactly n bytes and a well-formed continuation makes the response unparseable, which is reported")
 
 	msgs := r.Pick(700, 25000)
@@ -566,6 +567,59 @@ func (c *c13Case) run(nl string) {
 
 		if !strings.Contains(key, fmt.Sprintf("<%d>", o)) {
 			c.violate("C13 partial-origin-missing", fmt.Sprintf("FETCH %s: response item %q does not carry the origin <%d>", att, key, o))
+			return
+		}
+	}
+
+	// 3b. Partials whose origin does not fit 64 (or 32) bits but would alias a real offset if the number
+	// parser wrapped: "t + k*2^w". Such an origin lies beyond every section, so the only acceptable answers are
+	// a refusal (number = 32 bit in RFC 3501) or an empty string; bytes of the section mean the number was
+	// re-interpreted. A wrapped count is judged the same way against the slice from a real origin.
+	for i := 0; i < 2 && !c.bad; i++ {
+		t := targets[c.rng.Intn(len(targets))]
+		L := int64(len(t.want))
+
+		if L == 0 {
+			continue
+		}
+
+		w := []uint{32, 64, 64}[c.rng.Intn(3)]
+		alias := new(big.Int).Lsh(big.NewInt(int64(1+c.rng.Intn(12))), w)
+		alias.Add(alias, big.NewInt(int64(c.rng.Intn(int(L)))))
+
+		if c.rng.Intn(3) == 0 {
+			// the decimal text of 2^63-1 / 2^64-1 with one digit appended
+			b := []string{"9223372036854775807", "18446744073709551615"}[c.rng.Intn(2)]
+			alias.SetString(b[:len(b)-1]+fmt.Sprint(8+c.rng.Intn(2))+fmt.Sprint(c.rng.Intn(10)), 10)
+		}
+
+		wrapCount := c.rng.Intn(3) == 0
+
+		att := fmt.Sprintf("%s<%s.%d>", t.att, alias, 1+c.rng.Intn(int(L)))
+		want := ""
+
+		if wrapCount {
+			// a count that wraps to something small must not cut the slice short
+			o := int64(c.rng.Intn(int(L)))
+			att = fmt.Sprintf("%s<%d.%s>", t.att, o, alias)
+			want = string(t.want[o:])
+		}
+
+		got, _, ok := c.fetchOne(att)
+		if c.bad {
+			return
+		}
+
+		c.r.Distinct(fmt.Sprintf("partial alias w=%d count=%v refused=%v", w, wrapCount, !ok))
+
+		if ok {
+			c.r.Count("aliased_partials_answered", 1)
+		} else {
+			c.r.Count("aliased_partials_refused", 1)
+		}
+
+		if ok && got != want {
+			c.violate(fmt.Sprintf("C13 aliased partial count=%v", wrapCount), fmt.Sprintf("FETCH %s on a section of %d bytes returned %d bytes %q; a number of that size can only be refused or mean %d bytes", att, L, len(got), shorten(got, 80), len(want)))
 			return
 		}
 	}
